@@ -147,11 +147,12 @@ type Step struct {
 	Resp    *harness.Resp
 	VClock  time.Duration // before the op
 	// JarsPre: every browser's session/cookies before the op
-	SessPre []map[string]string
-	CookPre []map[string]string
-	SMSBase int   // len of SMS outbox before the op
-	APIErr  error // what an application-side call (Lock, Unlock) answered
-	HasAPI  bool
+	SessPre  []map[string]string
+	CookPre  []map[string]string
+	SMSBase  int   // len of SMS outbox before the op
+	APIErr   error // what an application-side call (Lock, Unlock, UpdatePassword) answered
+	HasAPI   bool
+	APIFired string // the backend call of that application-side call that was made to fail, if any
 }
 
 // Monitor is a per-property oracle.
@@ -206,6 +207,10 @@ func newMachine(c Case, mon Monitor) (*Machine, error) {
 	w.RegisterCode("code-u1", harness.OAuthIdentity{UID: "u1", Email: "u1@prov.io"})
 	w.RegisterCode("code-u2", harness.OAuthIdentity{UID: "u2", Email: "u2@prov.io"})
 	w.RegisterCode("code-weird", harness.OAuthIdentity{UID: "x;y;;z", Email: "weird@prov.io"})
+	// two people whose provider ids are 21-digit numbers differing in the last digit (what Google's ids look like);
+	// a provider that sends ids as bare JSON numbers does so for these (harness.providerRT)
+	w.RegisterCode("code-n1", harness.OAuthIdentity{UID: "108436373289711265891", Email: "n1@prov.io"})
+	w.RegisterCode("code-n2", harness.OAuthIdentity{UID: "108436373289711265892", Email: "n2@prov.io"})
 	w.RegisterCode("code-bad", harness.OAuthIdentity{UID: "u1", Fail: "exchange"})
 	w.RegisterCode("code-nodetails", harness.OAuthIdentity{UID: "u1", Fail: "details"})
 	if mon != nil {
@@ -904,7 +909,19 @@ func (m *Machine) Exec(i int, op Op) *Violation {
 	case "updpw":
 		if ka := m.KB.acct(op.A % max(1, len(m.KB.Accts))); ka != nil {
 			if u, err := m.W.Store.Load(context.Background(), ka.PID); err == nil {
-				if err := m.W.AB.UpdatePassword(context.Background(), u.(authboss.AuthableUser), op.S); err == nil {
+				// the application's call may meet a backend failure like any request (fa / fn of the op)
+				plan := harness.FaultPlan{}
+				if op.FN != "" {
+					plan = harness.FaultPlan{Name: op.FN, Kind: "generic"}
+				} else if op.FA > 0 {
+					plan = harness.FaultPlan{At: op.FA, Kind: op.FK}
+				}
+				m.W.B.Reset(plan)
+				err := m.W.AB.UpdatePassword(context.Background(), u.(authboss.AuthableUser), op.S)
+				s.APIErr, s.HasAPI, s.APIFired = err, true, m.W.B.Fired
+				m.lastCalls = m.W.B.Snapshot()
+				m.W.B.Reset(harness.FaultPlan{})
+				if err == nil {
 					ka.PWs = append(ka.PWs, op.S)
 				}
 				m.KB.secret(op.S, "password")
@@ -1050,6 +1067,9 @@ func (m *Machine) observe(s *Step) {
 		owner = r.UID()
 	}
 	oi := m.KB.idx(owner)
+	for _, sm := range r.SMS {
+		m.KB.secret(sm.Code, "sms-code") // a texted login / enrolment code is a one-time secret like any other
+	}
 	if r.JSON != nil {
 		if o, ok := r.JSON["otp"].(string); ok && o != "" && oi >= 0 {
 			m.KB.Accts[oi].OTPs = append(m.KB.Accts[oi].OTPs, o)
@@ -1227,7 +1247,14 @@ func (m *Machine) observeMails(mails []harness.Mail) {
 
 // ---- ground-truth helpers shared by monitors -------------------------------------------------
 
+// customHasherOn: the case under execution configured the application's own hasher (set by runCase).
+var customHasherOn bool
+
+// bcryptOK: does the stored value verify the password under the configured hasher?
 func bcryptOK(hash, pw string) bool {
+	if customHasherOn {
+		return harness.VerifySSHA256(hash, pw)
+	}
 	return hash != "" && bcrypt.CompareHashAndPassword([]byte(hash), []byte(pw)) == nil
 }
 
@@ -1344,6 +1371,8 @@ func snapDiff(a, b harness.Snap) []string {
 
 // runCase executes a whole case under a monitor.
 func runCase(c Case, mon Monitor) (*Machine, *Violation, error) {
+	customHasherOn = c.Cfg.CustomHasher
+	defer func() { customHasherOn = false }()
 	m, err := newMachine(c, mon)
 	if err != nil {
 		return nil, nil, err
